@@ -111,6 +111,8 @@ class E2ECheck:
             variant = spec.get("variant")
             if variant is None and not spec.get("shadow") and idx % 5 == 4:
                 variant = "loader"  # graphs arrive through a streaming workload loader with quiet windows
+            elif variant is None and not spec.get("shadow") and idx % 5 == 2:
+                variant = "latent"  # the policy takes simulated time to answer: its decisions are applied on a state that moved on
             world = direct.gen_direct((spec["seed"], idx), variant=variant)
             ctx = direct.run_direct(world, shadow=spec.get("shadow", False),
                                     decision_hooks=self.opts().get("decision_hooks", ()) if spec.get("shadow") else ())
@@ -237,7 +239,9 @@ class E2ECheck:
             return [("Task.start ordering automaton", tot.get("starts", 0), 1000),
                     ("direct-drive starts of tasks with parents under the chaos policy", tot.get("direct_starts_with_parents", 0), 1000),
                     ("direct-drive multi-timestamp graphs", tot.get("direct_multi_timestamp_graphs", 0), 200),
-                    ("direct-drive releases of tasks that carry their own declared release time", tot.get("direct_releases_with_declared_time", 0), 300)]
+                    ("direct-drive releases of tasks that carry their own declared release time", tot.get("direct_releases_with_declared_time", 0), 300),
+                    ("direct-drive answers of a policy that takes simulated time to compute", tot.get("direct_chaos_calls_with_latency", 0), 500),
+                    ("... decisions that arrived after their task had started", tot.get("direct_stale_decisions_for_started_tasks", 0), 30)]
         if p == "C03":
             return [("completion exactness", tot.get("completions_checked", 0), 1000),
                     ("queue order at pop", tot.get("pops", 0), 5000),
